@@ -271,20 +271,8 @@ Proof.
     apply IH; [exact Hok | cbn [length] in Hf; lia].
 Qed.
 
-(* ------------------------------------------------------------------ NormalizeDomain on a plain name *)
-Lemma drop_port_ne b r : b <> 58 -> drop_port (b :: r) = b :: drop_port r.
-Proof.
-  intro H. destruct b as [|p]; [reflexivity|].
-  do 6 (try (destruct p as [p|p|]; try reflexivity)).
-  exfalso. apply H. reflexivity.
-Qed.
-
-Lemma drop_port_id v : forallb (fun b => negb (b =? 58)) v = true -> drop_port v = v.
-Proof.
-  induction v as [|a v IH]; cbn [forallb]; intro H; [reflexivity|].
-  apply andb_prop in H. destruct H as [H1 H2]. apply negb_true_iff in H1. apply N.eqb_neq in H1.
-  rewrite (drop_port_ne _ _ H1), (IH H2). reflexivity.
-Qed.
+(* ------------------------------------------------------------------ NormalizeDomain on a Host value *)
+Definition noc (c : N) (l : bytes) : bool := forallb (fun b => negb (b =? c)) l.
 
 Lemma last_is_false c l : forallb (fun b => negb (b =? c)) l = true -> last_is c l = false.
 Proof.
@@ -292,11 +280,233 @@ Proof.
   cbn [forallb] in H. apply andb_prop in H. destruct H as [H1 _]. apply negb_true_iff in H1. exact H1.
 Qed.
 
-Lemma normalize_domain_wf v : wf_name v = true -> normalize_domain v = norm_name (drop_port v).
+Lemma last_is_snoc c l : last_is c (l ++ [c]) = true.
+Proof. unfold last_is. rewrite rev_unit. apply N.eqb_refl. Qed.
+
+Lemma has_byte_false c l : noc c l = true -> has_byte c l = false.
+Proof. intro H. unfold has_byte. rewrite (index_byte_none c l H). reflexivity. Qed.
+
+Lemma last_index_byte_app c l r :
+  noc c r = true -> last_index_byte c (l ++ c :: r) = Some (length l).
+Proof.
+  intro H. unfold last_index_byte. rewrite rev_app_distr. cbn [rev]. rewrite <- app_assoc. cbn [app].
+  rewrite (index_byte_app_here c (rev r) (rev l) (forallb_rev _ _ H)).
+  f_equal. rewrite app_length, rev_length. cbn [length]. lia.
+Qed.
+
+Lemma before_app c l r : noc c l = true -> before c (l ++ c :: r) = l.
+Proof.
+  unfold noc. induction l as [|a l IH]; cbn [app before forallb]; intro H.
+  - rewrite N.eqb_refl. reflexivity.
+  - apply andb_prop in H. destruct H as [H1 H2]. apply negb_true_iff in H1. rewrite H1, (IH H2). reflexivity.
+Qed.
+
+Lemma after_app c l r : noc c l = true -> after c (l ++ c :: r) = Some r.
+Proof.
+  unfold noc. induction l as [|a l IH]; cbn [app after forallb]; intro H.
+  - rewrite N.eqb_refl. reflexivity.
+  - apply andb_prop in H. destruct H as [H1 H2]. apply negb_true_iff in H1. rewrite H1. exact (IH H2).
+Qed.
+
+Lemma after_noc c l : noc c l = true -> after c l = None.
+Proof.
+  unfold noc. induction l as [|a l IH]; cbn [after forallb]; intro H; [reflexivity|].
+  apply andb_prop in H. destruct H as [H1 H2]. apply negb_true_iff in H1. rewrite H1. exact (IH H2).
+Qed.
+
+Lemma after_none c l : after c l = None -> noc c l = true.
+Proof.
+  unfold noc. induction l as [|a l IH]; cbn [after forallb]; intro H; [reflexivity|].
+  destruct (a =? c); [discriminate H|]. cbn [negb andb]. exact (IH H).
+Qed.
+
+Lemma after_some c l : forall r, after c l = Some r -> l = before c l ++ c :: r /\ noc c (before c l) = true.
+Proof.
+  unfold noc. induction l as [|a l IH]; cbn [after before]; intros r H; [discriminate H|].
+  destruct (a =? c) eqn:E.
+  - injection H as H. apply N.eqb_eq in E. subst. split; reflexivity.
+  - destruct (IH r H) as [A B]. cbn [app forallb]. rewrite E, B. split; [f_equal; exact A | reflexivity].
+Qed.
+
+(* the literal matches of the Spec, as tests *)
+Lemma wf_host_value_cons b r :
+  wf_host_value (b :: r) =
+  if b =? 91 then
+    forallb v6_char (before 93 r) && negb (length (before 93 r) =? 0)%nat
+    && match after 93 r with
+       | Some [] => true
+       | Some (58 :: port) => forallb is_digit port
+       | _ => false
+       end
+  else match after 58 (b :: r) with
+       | None => wf_name (b :: r)
+       | Some port => forallb host_char (before 58 (b :: r)) && negb (length (before 58 (b :: r)) =? 0)%nat
+                      && forallb is_digit port
+       end.
+Proof.
+  unfold wf_host_value. destruct b as [|p]; [reflexivity|].
+  do 8 (try (destruct p as [p|p|]; try reflexivity)).
+Qed.
+
+Lemma host_value_name_cons b r :
+  host_value_name (b :: r) =
+  if lower b =? 91 then before 93 (map lower r)
+  else match after 58 (map lower (b :: r)) with
+       | None => strip_dot (map lower (b :: r))
+       | Some _ => before 58 (map lower (b :: r))
+       end.
+Proof.
+  unfold host_value_name. cbv zeta. cbn [map]. generalize (lower b) as x. generalize (map lower r) as l.
+  intros l x. destruct x as [|p]; [reflexivity|].
+  do 8 (try (destruct p as [p|p|]; try reflexivity)).
+Qed.
+
+Lemma split_host_port_nb x l :
+  x <> 91 ->
+  split_host_port (x :: l) =
+  match last_index_byte 58 (x :: l) with
+  | None => None
+  | Some i =>
+      if has_byte 58 (firstn i (x :: l)) then None
+      else if has_byte 91 (x :: l) then None
+      else if has_byte 93 (x :: l) then None
+      else Some (firstn i (x :: l))
+  end.
+Proof.
+  intro H. unfold split_host_port. destruct (last_index_byte 58 (x :: l)) as [i|]; [|reflexivity].
+  destruct x as [|p]; [reflexivity|].
+  do 8 (try (destruct p as [p|p|]; try reflexivity)).
+  exfalso. apply H. reflexivity.
+Qed.
+
+Definition port_ok (t : option bytes) : bool :=
+  match t with
+  | Some [] => true
+  | Some (58 :: port) => forallb is_digit port
+  | _ => false
+  end.
+
+Lemma port_ok_inv t : port_ok t = true ->
+  t = Some [] \/ exists port, t = Some (58 :: port) /\ forallb is_digit port = true.
+Proof.
+  destruct t as [[|c port]|]; intro H; [left; reflexivity | | discriminate H].
+  destruct c as [|p]; [discriminate H|].
+  do 8 (try (destruct p as [p|p|]; try discriminate H)).
+  right. exists port. split; [reflexivity | exact H].
+Qed.
+
+(* byte classes of the Host value shapes *)
+Lemma lower_eq91 b : (lower b =? 91) = (b =? 91).
+Proof. unfold lower. destruct ((65 <=? b) && (b <=? 90)) eqn:E; lia. Qed.
+Lemma host_char_lower_no91 b : host_char b = true -> negb (lower b =? 91) = true.
+Proof. unfold host_char, lower. destruct ((65 <=? b) && (b <=? 90)) eqn:E; lia. Qed.
+Lemma v6_lower_no91 b : v6_char b = true -> negb (lower b =? 91) = true.
+Proof. unfold v6_char, is_digit, lower. destruct ((65 <=? b) && (b <=? 90)) eqn:E; lia. Qed.
+Lemma v6_lower_no93 b : v6_char b = true -> negb (lower b =? 93) = true.
+Proof. unfold v6_char, is_digit, lower. destruct ((65 <=? b) && (b <=? 90)) eqn:E; lia. Qed.
+Lemma v6_no93 b : v6_char b = true -> negb (b =? 93) = true.
+Proof. unfold v6_char, is_digit, lower. destruct ((65 <=? b) && (b <=? 90)) eqn:E; lia. Qed.
+Lemma v6_nosp b : v6_char b = true -> nosp b = true.
+Proof. unfold v6_char, is_digit, lower, nosp, is_space. destruct ((65 <=? b) && (b <=? 90)) eqn:E; lia. Qed.
+Lemma v6_lower_nobr b : v6_char b = true -> negb (existsb (N.eqb (lower b)) [91; 93]) = true.
+Proof.
+  intro H. pose proof (v6_lower_no91 b H) as A. pose proof (v6_lower_no93 b H) as B.
+  cbn [existsb]. lia.
+Qed.
+Lemma digit_nosp b : is_digit b = true -> nosp b = true.
+Proof. unfold is_digit, nosp, is_space. lia. Qed.
+Lemma digit_no58 b : is_digit b = true -> negb (b =? 58) = true.
+Proof. unfold is_digit. lia. Qed.
+Lemma digit_no91 b : is_digit b = true -> negb (b =? 91) = true.
+Proof. unfold is_digit. lia. Qed.
+Lemma digit_no93 b : is_digit b = true -> negb (b =? 93) = true.
+Proof. unfold is_digit. lia. Qed.
+Lemma digit_lower b : is_digit b = true -> lower b = b.
+Proof. unfold is_digit, lower. destruct ((65 <=? b) && (b <=? 90)) eqn:E; lia. Qed.
+
+Lemma map_lower_digits l : forallb is_digit l = true -> map lower l = l.
+Proof.
+  induction l as [|a l IH]; cbn [forallb map]; intro H; [reflexivity|].
+  apply andb_prop in H. destruct H as [H1 H2]. rewrite (digit_lower _ H1), (IH H2). reflexivity.
+Qed.
+
+Lemma last_is_false_tail c l r : r <> [] -> noc c r = true -> last_is c (l ++ r) = false.
+Proof.
+  intros Hne H. unfold last_is. rewrite rev_app_distr.
+  pose proof (forallb_rev _ _ H) as H'.
+  destruct (rev r) as [|x y] eqn:E.
+  - exfalso. apply Hne. rewrite <- (rev_involutive r), E. reflexivity.
+  - cbn [app]. cbn [forallb] in H'. apply andb_prop in H'. destruct H' as [H1 _].
+    apply negb_true_iff in H1. exact H1.
+Qed.
+
+(* strings.Trim(h, "[]") on "[" a "]" *)
+Definition nobr (b : N) : bool := negb (existsb (N.eqb b) [91; 93]).
+
+Lemma ltrim_set_keep set l r :
+  l <> [] -> forallb (fun b => negb (existsb (N.eqb b) set)) l = true -> ltrim_set set (l ++ r) = l ++ r.
+Proof.
+  intros Hne H. destruct l as [|a l]; [exfalso; apply Hne; reflexivity|].
+  cbn [forallb] in H. apply andb_prop in H. destruct H as [H1 _]. apply negb_true_iff in H1.
+  cbn [app ltrim_set]. rewrite H1. reflexivity.
+Qed.
+
+Lemma ltrim_set_id set l :
+  forallb (fun b => negb (existsb (N.eqb b) set)) l = true -> ltrim_set set l = l.
+Proof.
+  intro H. destruct l as [|a l]; [reflexivity|].
+  cbn [forallb] in H. apply andb_prop in H. destruct H as [H1 _]. apply negb_true_iff in H1.
+  cbn [ltrim_set]. rewrite H1. reflexivity.
+Qed.
+
+Lemma trim_set_brackets la :
+  la <> [] -> forallb nobr la = true -> trim_set [91; 93] (91 :: la ++ [93]) = la.
+Proof.
+  intros Hne H. unfold trim_set.
+  change (ltrim_set [91; 93] (91 :: la ++ [93])) with (ltrim_set [91; 93] (la ++ [93])).
+  rewrite (ltrim_set_keep _ _ _ Hne H). rewrite rev_unit.
+  change (ltrim_set [91; 93] (93 :: rev la)) with (ltrim_set [91; 93] (rev la)).
+  rewrite (ltrim_set_id _ _ (forallb_rev _ _ H)). apply rev_involutive.
+Qed.
+
+(* net.SplitHostPort on "[" a "]:" port *)
+Lemma split_host_port_br la port :
+  noc 93 la = true -> noc 91 la = true ->
+  noc 58 port = true -> noc 91 port = true -> noc 93 port = true ->
+  split_host_port (91 :: la ++ 93 :: 58 :: port) = Some la.
+Proof.
+  intros A93 A91 P58 P91 P93. unfold split_host_port.
+  replace (91 :: la ++ 93 :: 58 :: port) with ((91 :: la ++ [93]) ++ 58 :: port) at 1.
+  2:{ cbn [app]. rewrite <- app_assoc. reflexivity. }
+  rewrite (last_index_byte_app 58 _ _ P58).
+  cbv iota.
+  assert (E : index_byte 93 (91 :: la ++ 93 :: 58 :: port) = Some (S (length la))).
+  { cbn [index_byte]. change (91 =? 93) with false. cbv iota.
+    rewrite (index_byte_app_here 93 la _ A93). reflexivity. }
+  rewrite E.
+  assert (L1 : Nat.eqb (S (length la) + 1)%nat (length (91 :: la ++ 93 :: 58 :: port)) = false).
+  { apply Nat.eqb_neq. cbn [length]. rewrite app_length. cbn [length]. lia. }
+  rewrite L1.
+  assert (L2 : Nat.eqb (S (length la) + 1)%nat (length (91 :: la ++ [93])) = true).
+  { apply Nat.eqb_eq. cbn [length]. rewrite app_length. cbn [length]. lia. }
+  rewrite L2.
+  cbv zeta.
+  change (skipn 1 (91 :: la ++ 93 :: 58 :: port)) with (la ++ 93 :: 58 :: port).
+  rewrite has_byte_false.
+  2:{ unfold noc in *. rewrite forallb_app, A91. cbn [forallb]. rewrite P91. reflexivity. }
+  replace (skipn (S (length la) + 1) (91 :: la ++ 93 :: 58 :: port)) with (58 :: port).
+  2:{ replace (S (length la) + 1)%nat with (S (length la + 1)) by lia. cbn [skipn].
+      rewrite skipn_len_app. reflexivity. }
+  rewrite has_byte_false.
+  2:{ unfold noc in *. cbn [forallb]. rewrite P93. reflexivity. }
+  replace (S (length la) - 1)%nat with (length la) by lia.
+  rewrite firstn_len_app. reflexivity.
+Qed.
+
+Lemma normalize_domain_plain v : wf_name v = true -> normalize_domain v = strip_dot (map lower v).
 Proof.
   unfold wf_name. intro H. apply andb_prop in H. destruct H as [H _].
-  rewrite (drop_port_id v (forallb_impl _ _ _ host_char_no58 H)).
-  unfold normalize_domain, norm_name.
+  unfold normalize_domain.
   rewrite (trim_sp_id v (forallb_impl _ _ _ host_char_nosp H)).
   cbv zeta.
   assert (A : forallb (fun b => negb (b =? 93)) (map lower v) = true).
@@ -306,6 +516,119 @@ Proof.
   rewrite (last_is_false _ _ A).
   unfold split_host_port, last_index_byte.
   rewrite (index_byte_none 58 _ (forallb_rev _ _ B)). reflexivity.
+Qed.
+
+Lemma normalize_domain_hostport name port :
+  name <> [] -> forallb host_char name = true -> forallb is_digit port = true ->
+  normalize_domain (name ++ 58 :: port) = map lower name.
+Proof.
+  intros Hne Hn Hp. unfold normalize_domain.
+  rewrite trim_sp_id.
+  2:{ rewrite forallb_app, (forallb_impl _ _ _ host_char_nosp Hn). cbn [forallb].
+      rewrite (forallb_impl _ _ _ digit_nosp Hp). reflexivity. }
+  cbv zeta. rewrite map_app. cbn [map]. change (lower 58) with 58. rewrite (map_lower_digits _ Hp).
+  assert (N58 : noc 58 (map lower name) = true)
+    by (apply forallb_map; exact (forallb_impl _ _ _ host_char_lower_no58 Hn)).
+  assert (N91 : noc 91 (map lower name) = true)
+    by (apply forallb_map; exact (forallb_impl _ _ _ host_char_lower_no91 Hn)).
+  assert (N93 : noc 93 (map lower name) = true)
+    by (apply forallb_map; exact (forallb_impl _ _ _ host_char_lower_no93 Hn)).
+  assert (P58 : noc 58 port = true) by exact (forallb_impl _ _ _ digit_no58 Hp).
+  assert (P91 : noc 91 port = true) by exact (forallb_impl _ _ _ digit_no91 Hp).
+  assert (P93 : noc 93 port = true) by exact (forallb_impl _ _ _ digit_no93 Hp).
+  rewrite last_is_false_tail.
+  2:{ discriminate. }
+  2:{ unfold noc in *. cbn [forallb]. rewrite P93. reflexivity. }
+  assert (S : split_host_port (map lower name ++ 58 :: port) = Some (map lower name)).
+  { destruct name as [|n0 name']; [exfalso; apply Hne; reflexivity|].
+    assert (X : lower n0 <> 91).
+    { cbn [forallb] in Hn. apply andb_prop in Hn. destruct Hn as [Hn _].
+      apply host_char_lower_no91 in Hn. lia. }
+    cbn [map app]. rewrite (split_host_port_nb _ _ X).
+    change (lower n0 :: map lower name' ++ 58 :: port) with (map lower (n0 :: name') ++ 58 :: port).
+    rewrite (last_index_byte_app 58 _ _ P58). rewrite firstn_len_app.
+    rewrite (has_byte_false _ _ N58).
+    rewrite has_byte_false.
+    2:{ unfold noc in *. rewrite forallb_app, N91. cbn [forallb]. rewrite P91. reflexivity. }
+    rewrite has_byte_false.
+    2:{ unfold noc in *. rewrite forallb_app, N93. cbn [forallb]. rewrite P93. reflexivity. }
+    reflexivity. }
+  rewrite S. reflexivity.
+Qed.
+
+Lemma normalize_domain_v6 a :
+  a <> [] -> forallb v6_char a = true -> normalize_domain (91 :: a ++ [93]) = map lower a.
+Proof.
+  intros Hne Ha. unfold normalize_domain.
+  rewrite trim_sp_id.
+  2:{ cbn [forallb]. rewrite forallb_app, (forallb_impl _ _ _ v6_nosp Ha). reflexivity. }
+  cbv zeta. cbn [map]. rewrite map_app. cbn [map]. change (lower 91) with 91. change (lower 93) with 93.
+  change (91 :: map lower a ++ [93]) with ((91 :: map lower a) ++ [93]) at 1.
+  rewrite last_is_snoc. cbn [app].
+  apply trim_set_brackets.
+  - destruct a; [exfalso; apply Hne; reflexivity | discriminate].
+  - apply forallb_map. exact (forallb_impl _ _ _ v6_lower_nobr Ha).
+Qed.
+
+Lemma normalize_domain_v6port a port :
+  forallb v6_char a = true -> forallb is_digit port = true ->
+  normalize_domain (91 :: a ++ 93 :: 58 :: port) = map lower a.
+Proof.
+  intros Ha Hp. unfold normalize_domain.
+  rewrite trim_sp_id.
+  2:{ cbn [forallb]. rewrite forallb_app, (forallb_impl _ _ _ v6_nosp Ha). cbn [forallb].
+      rewrite (forallb_impl _ _ _ digit_nosp Hp). reflexivity. }
+  cbv zeta. cbn [map]. rewrite map_app. cbn [map].
+  change (lower 91) with 91. change (lower 93) with 93. change (lower 58) with 58.
+  rewrite (map_lower_digits _ Hp).
+  assert (P58 : noc 58 port = true) by exact (forallb_impl _ _ _ digit_no58 Hp).
+  assert (P91 : noc 91 port = true) by exact (forallb_impl _ _ _ digit_no91 Hp).
+  assert (P93 : noc 93 port = true) by exact (forallb_impl _ _ _ digit_no93 Hp).
+  replace (91 :: map lower a ++ 93 :: 58 :: port) with ((91 :: map lower a ++ [93]) ++ 58 :: port) at 1.
+  2:{ cbn [app]. rewrite <- app_assoc. reflexivity. }
+  rewrite last_is_false_tail.
+  2:{ discriminate. }
+  2:{ unfold noc in *. cbn [forallb]. rewrite P93. reflexivity. }
+  rewrite split_host_port_br; try assumption; [reflexivity | |].
+  - apply forallb_map. exact (forallb_impl _ _ _ v6_lower_no93 Ha).
+  - apply forallb_map. exact (forallb_impl _ _ _ v6_lower_no91 Ha).
+Qed.
+
+Lemma length_nonempty (l : bytes) : negb (length l =? 0)%nat = true -> l <> [].
+Proof. destruct l; [discriminate | discriminate]. Qed.
+
+Lemma normalize_domain_wf v : wf_host_value v = true -> normalize_domain v = host_value_name v.
+Proof.
+  destruct v as [|b r]; [reflexivity|].
+  rewrite wf_host_value_cons, host_value_name_cons, lower_eq91.
+  destruct (b =? 91) eqn:E.
+  - apply N.eqb_eq in E. subst b. intro H.
+    apply andb_prop in H. destruct H as [H Hport]. apply andb_prop in H. destruct H as [Ha Hne].
+    apply length_nonempty in Hne.
+    change (port_ok (after 93 r) = true) in Hport.
+    destruct (port_ok_inv _ Hport) as [Et | [port [Et Hp]]];
+      destruct (after_some _ _ _ Et) as [Er _]; remember (before 93 r) as a eqn:Q; clear Q; subst r.
+    + rewrite (normalize_domain_v6 a Hne Ha).
+      rewrite map_app. cbn [map]. change (lower 93) with 93. symmetry. apply before_app.
+      apply forallb_map. exact (forallb_impl _ _ _ v6_lower_no93 Ha).
+    + rewrite (normalize_domain_v6port a port Ha Hp).
+      rewrite map_app. cbn [map]. change (lower 93) with 93. symmetry. apply before_app.
+      apply forallb_map. exact (forallb_impl _ _ _ v6_lower_no93 Ha).
+  - clear E. generalize (b :: r) as v. clear b r. intros v H.
+    destruct (after 58 v) as [port|] eqn:Ea.
+    + apply andb_prop in H. destruct H as [H Hp]. apply andb_prop in H. destruct H as [Hn Hne].
+      apply length_nonempty in Hne.
+      destruct (after_some _ _ _ Ea) as [Ev _]. remember (before 58 v) as name eqn:Q. clear Q. subst v.
+      rewrite (normalize_domain_hostport name port Hne Hn Hp).
+      assert (N58 : noc 58 (map lower name) = true)
+        by (apply forallb_map; exact (forallb_impl _ _ _ host_char_lower_no58 Hn)).
+      rewrite map_app. cbn [map]. change (lower 58) with 58.
+      rewrite (after_app 58 _ _ N58), (before_app 58 _ _ N58). reflexivity.
+    + rewrite (normalize_domain_plain v H).
+      assert (N58 : noc 58 (map lower v) = true).
+      { unfold wf_name in H. apply andb_prop in H. destruct H as [H _].
+        apply forallb_map. exact (forallb_impl _ _ _ host_char_lower_no58 H). }
+      rewrite (after_noc 58 _ N58). reflexivity.
 Qed.
 
 (* ------------------------------------------------------------------ the front of the sniffer *)
